@@ -1,4 +1,4 @@
-"""Generator for check C04: types, values, printers and deterministic bodies (part 1: types, values, printers).
+"""Generator for check C04: types, values, printers and deterministic bodies.
 
 Everything here only WRITES capy text and computes, in python, the value the text denotes (from the README semantics of
 literals, + - * / %, casts that preserve the value, control flow). It never looks at what capy does.
@@ -8,7 +8,6 @@ import struct
 INTS = {"i8": (8, True), "i16": (16, True), "i32": (32, True), "i64": (64, True), "i128": (128, True), "isize": (64, True),
         "u8": (8, False), "u16": (16, False), "u32": (32, False), "u64": (64, False), "u128": (128, False), "usize": (64, False)}
 INT_NAMES = list(INTS)
-SCALAR_KINDS = ("int", "float", "bool", "char")
 
 
 class Ty:
@@ -187,7 +186,7 @@ class Env:
         if k == "arr":
             ek = r.weighted([("scalar", 10), ("struct", 4), ("arr", 3), ("enum", 2), ("str", 1)])
             if ek == "scalar":
-                return self.arr(self._scalar(), r.range(1, 6))
+                return self.arr(self._scalar(), r.pick([17, 33, 40]) if r.chance(1, 10) else r.range(1, 6))
             if ek == "struct":
                 return self.arr(r.pick(self.structs), r.range(1, 3))
             if ek == "arr":
@@ -440,9 +439,12 @@ class Ctx:
         self.stmts = []
         self.feats = feats
         self.no_helpers = no_helpers
+        self.in_helper = False     # inside the body of a shared helper function: no nested comptime there (the run-time copy calls it too)
 
-    def sub(self):
-        return Ctx(self.prog, self.feats, self.no_helpers)
+    def sub(self, helper=False):
+        c = Ctx(self.prog, self.feats, self.no_helpers)
+        c.in_helper = self.in_helper or helper
+        return c
 
     def fresh(self, p):
         return self.prog.fresh(p)
@@ -554,20 +556,20 @@ def gen_int(ctx, T, v, d):
         a = small_near(r, lo, hi, v)
         if a is not None:
             ctx.feats.add("arith")
-            return f"({gen_int(ctx, T, a, d - 1)} + {gen_int(ctx, T, v - a, d - 1)})"
+            return f"({gen(ctx, T, a, d - 1)} + {gen(ctx, T, v - a, d - 1)})"
     elif s == "sub":
         # a - b = v
         b_lo, b_hi = max(lo, lo - v), min(hi, hi - v)
         if b_lo <= b_hi:
             b = r.range(max(b_lo, -40), min(b_hi, 40)) if max(b_lo, -40) <= min(b_hi, 40) else b_lo
             ctx.feats.add("arith")
-            return f"({gen_int(ctx, T, v + b, d - 1)} - {gen_int(ctx, T, b, d - 1)})"
+            return f"({gen(ctx, T, v + b, d - 1)} - {gen(ctx, T, b, d - 1)})"
     elif s == "mul":
         fs = [f for f in (2, 3, 5, 7, 10, 16) if v != 0 and v % f == 0]
         if fs:
             f = r.pick(fs)
             ctx.feats.add("arith")
-            return f"({gen_int(ctx, T, v // f, d - 1)} * {gen_int(ctx, T, f, d - 1)})"
+            return f"({gen(ctx, T, v // f, d - 1)} * {gen(ctx, T, f, d - 1)})"
     elif s == "div" and T.bits <= 64 and v >= 0:
         b = r.range(2, 9)
         a = v * b + r.below(b)
@@ -638,7 +640,7 @@ def gen_int(ctx, T, v, d):
         if a is not None:
             h = ctx.helper(f"h_add_{T.name}", f"h_add_{T.name} :: (a: {T.name}, b: {T.name}) -> {T.name} {{ a + b }}")
             ctx.feats.add("call")
-            return f"{h}({gen_int(ctx, T, a, d - 1)}, {gen_int(ctx, T, v - a, d - 1)})"
+            return f"{h}({gen(ctx, T, a, d - 1)}, {gen(ctx, T, v - a, d - 1)})"
     elif s == "call_rec":
         cnt = r.range(1, 9)
         step = r.pick([1, 2, 5, 13]) * (-1 if T.signed and r.chance(1, 2) else 1)
@@ -728,7 +730,7 @@ def gen_direct(ctx, T, v, d):
         return v
     if k == "arr":
         E = T.elem
-        if E.kind == "int" and T.n >= 2 and d > 0 and all(v[i + 1] - v[i] == v[1] - v[0] for i in range(T.n - 1)) and v[1] != v[0] and r.chance(2, 3):
+        if E.kind == "int" and T.n >= 2 and d > 0 and all(v[i + 1] - v[i] == v[1] - v[0] for i in range(T.n - 1)) and 0 < abs(v[1] - v[0]) <= 1000 and r.chance(2, 3):
             step = v[1] - v[0]
             a, i = ctx.fresh("a"), ctx.fresh("i")
             base = decl_int(ctx, E, v[0])
@@ -787,7 +789,7 @@ def gen_direct(ctx, T, v, d):
         tag, pv = v
         rr = ctx.fresh("r")
         use_try = d > 0 and not ctx.no_helpers and r.chance(1, 3)
-        c2 = ctx.sub() if use_try else ctx
+        c2 = ctx.sub(helper=True) if use_try else ctx
         inner = gen(c2, T.sub if tag == "ok" else T.err, pv, d - 1)
         x = ctx.fresh("x")
         c2.stmts.append(f"{x} : {(T.sub if tag == 'ok' else T.err).name} = {inner};")
@@ -813,8 +815,19 @@ def gen(ctx, T, v, d):
     r = ctx.rng
     if d <= 0 or not r.chance(3, 10):
         return gen_direct(ctx, T, v, d)
+    e = gen_wrapped(ctx, T, v, d)
+    if e[0] in "`{@" or e.startswith(("if ", "switch ")):
+        # `(a + `l: {..})`, `comptime {..} + b` (= comptime ({..} + b)), `{..}[i]` do not parse as intended: name the value first
+        w = ctx.fresh("w")
+        ctx.stmts.append(f"{w} := {e};" if T.kind == "type" else f"{w} : {T.name} = {e};")
+        return w
+    return e
+
+
+def gen_wrapped(ctx, T, v, d):
+    r = ctx.rng
     k = T.kind
-    ws = ["if", "lblock", "nested", "block"]
+    ws = ["if", "lblock", "block"] + ([] if ctx.in_helper else ["nested"])
     if k != "type":
         ws += ["ptr", "lambda"]
         if k in ("int", "float", "bool", "char", "str", "struct", "enum"):
@@ -892,7 +905,7 @@ def gen(ctx, T, v, d):
         ctx.feats.add("call")
         return f"{h}({gen_direct(ctx, T, v, d - 1)})"
     if w == "callfn":
-        sub = ctx.sub()
+        sub = ctx.sub(helper=True)
         e = gen_direct(sub, T, v, d - 1)
         h = ctx.fresh("hf")
         if r.chance(1, 2):
